@@ -27,7 +27,11 @@ INT_T = [("signed char", 8), ("unsigned char", 8), ("short", 16), ("unsigned sho
          ("int", 32), ("unsigned int", 32), ("long", 64), ("unsigned long", 64),
          ("long long", 64), ("unsigned long long", 64)]
 
-PRELUDE = "struct N { char c; int i; };\nstruct V { short h; char t[]; };\n"
+PRELUDE = ("struct N { char c; int i; };\nstruct V { short h; char t[]; };\n"
+           "union U { int i; char c[5]; };\nstruct NB { int a:3; char c; };\n"
+           "enum E { EA, EB = 5 };\nenum EU { EUA = 0x80000000u };\nenum EL { ELA = 0x100000000 };\nenum EN { ENA = -1 };\n")
+# only for gcc (cffi knows these names by itself)
+C_HEADERS = "#include <stdint.h>\n#include <wchar.h>\n#include <uchar.h>\n#include <sys/types.h>\n"
 
 
 # A field kind is (key, decl_template, names) where decl_template uses {n} for the field's
@@ -97,12 +101,33 @@ def _a_full():
     out.append(("anonnest", "struct {{ char {n}a; union {{ short {n}b; char {n}c; }}; }};",
                 [(("{n}a",), "{n}a", False), (("{n}b",), "{n}b", False), (("{n}c",), "{n}c", False)], "anon"))
     out.append(("varnested", "struct V {n};", [(("{n}",), "{n}", False)], "reg"))
+    # fields that mention the enclosing aggregate itself ({T} = 'struct aNN' / 'union aNN')
+    out.append(K_reg("selfptr", "{T} *{n};"))
+    out.append(K_reg("selfptr2", "{T} *{n}[2];"))
+    out.append(K_reg("fn_selfptr_arg", "int (*{n})({T} *);"))
+    out.append(K_reg("fn_self_arg", "void (*{n})({T});"))
+    out.append(K_reg("fn_self_res", "{T} (*{n})(void);"))
+    # more field types: enums of every underlying type, wide characters, complex, <stdint.h> names
+    for key, decl in [("enum", "enum E {n};"), ("enum_u", "enum EU {n};"), ("enum_l", "enum EL {n};"),
+                      ("enum_n", "enum EN {n};"), ("wchar", "wchar_t {n};"), ("char16", "char16_t {n};"),
+                      ("char32", "char32_t {n};"), ("fcomplex", "float _Complex {n};"),
+                      ("dcomplex", "double _Complex {n};"), ("int8", "int8_t {n};"), ("uint16", "uint16_t {n};"),
+                      ("int_least32", "int_least32_t {n};"), ("uint_fast16", "uint_fast16_t {n};"),
+                      ("intptr", "intptr_t {n};"), ("size_t", "size_t {n};"), ("ssize_t", "ssize_t {n};"),
+                      ("ptrdiff", "ptrdiff_t {n};"), ("intmax", "intmax_t {n};"),
+                      ("union_named", "union U {n};"), ("nested_bf", "struct NB {n};"),
+                      ("arr_struct", "struct N {n}[2];"), ("arr_union", "union U {n}[3];"), ("arr_ptr", "void *{n}[3];"),
+                      ("arr_fnptr", "int (*{n}[2])(int);"), ("ptr_arr", "int (*{n})[5];"), ("arr0", "int {n}[0];")]:
+        out.append(K_reg(key, decl))
+    out.append(K_bf("uint8:3", "uint8_t", 3))
+    out.append(K_bf("int32:17", "int32_t", 17))
+    out.append(K_bf("uint64:40", "uint64_t", 40))
     return out
 
 
 A_FULL = _a_full()
 ALPH = {"S": A_SMALL, "F": A_FULL}
-FLEX = {None: None, "c": "char", "i": "int", "q": "long long"}
+FLEX = {None: None, "c": "char", "i": "int", "q": "long long", "ld": "long double", "p": "void *", "N": "struct N"}
 
 # An aggregate descriptor: (su, ((alph, idx), ...), pack, flex)
 #   su in 'struct'/'union'; pack in None / 'packed' / 1,2,4,8; flex in None,'c','i','q'
@@ -118,7 +143,7 @@ def agg_text(desc, tag):
     leaves = []
     for j, k in enumerate(kinds_of(desc)):
         n = "f%d" % j
-        lines.append("  " + k[1].format(n=n))
+        lines.append("  " + k[1].format(n=n, T="%s %s" % (su, tag)))
         for path, cpath, isbf in k[2]:
             leaves.append((tuple(p.format(n=n) for p in path), cpath.format(n=n), isbf))
     if flex:
@@ -134,6 +159,8 @@ def valid(desc):
     named = any(k[2] for k in ks)
     if not named:
         return False            # no named member: undefined in C
+    if all(k[0] == "arr0" for k in ks if k[2]):
+        return False            # only zero-length arrays: an object of size 0 is not C (gcc: 0, cffi: 1)
     if flex and su == "union":
         return False
     has_bf = any(k[3] in ("bf", "ubf") or k[0] == "anonbf" for k in ks)
@@ -171,7 +198,7 @@ def classify(desc):
 
 def gcc_facts(descs):
     """Compile one program printing the layout facts of every aggregate of the block."""
-    src = ["#include <stdio.h>\n#include <stddef.h>\n#include <string.h>\n", PRELUDE]
+    src = ["#include <stdio.h>\n#include <stddef.h>\n#include <string.h>\n", C_HEADERS, PRELUDE]
     body = []
     for i, d in enumerate(descs):
         tag = "a%d" % i
@@ -236,7 +263,7 @@ def cffi_check_one(ffi, d, tag, leaves, gf):
                 bad.append(("bits", {"field": cpath, "cffi": sorted(got), "gcc": sorted(want)}))
             # and through the public API: write all-ones, look at the bytes
             p = ffi.new(T + " *")
-            unsigned = "unsigned" in str(fld.type.cname) or fld.type.cname == "_Bool"
+            unsigned = fld.type.cname == "_Bool" or int(ffi.cast(fld.type.cname, -1)) > 0
             allones = (1 << fld.bitsize) - 1 if unsigned else -1
             try:
                 setattr(p, path[0], allones)
@@ -327,6 +354,14 @@ def enumerate_space(ctx):
                     yield (su, tuple(("S", i) for i in idx), pk, None)
             for i, j in itertools.product(regF, repeat=2):
                 yield (su, (("F", i), ("F", j)), pk, None)
+    for fl in ("ld", "p", "N"):
+        for n in range(1, 3):
+            for idx in itertools.product(range(nS), repeat=n):
+                yield ("struct", tuple(("S", i) for i in idx), None, fl)
+    for su in ("struct", "union"):
+        for n in range(1, 3):
+            for idx in itertools.product(regS, repeat=n):
+                yield (su, tuple(("S", i) for i in idx), 16, None)
     for fl in ("c", "i", "q"):
         for n in range(1, (2 if ctx.quick else 3) + 1):
             for idx in itertools.product(range(nS), repeat=n):
@@ -371,14 +406,15 @@ def run(ctx):
         evaluated += n
         for d, text, bad in res:
             for kind, info in bad:
-                ctx.violation({"kind": kind, "width64": info.get("width") == 64},
+                selfval = kind == "rejected" and any(k[0] in ("fn_self_arg", "fn_self_res") for k in kinds_of(d))
+                ctx.violation({"kind": kind, "width64": info.get("width") == 64, "self_by_value_in_fnptr": selfval},
                               {"desc": d, "decl": text, "pack": d[2], "kind": kind, "info": info})
     cov = {
         "evaluations": evaluated,
         "distinct_nontrivial": len(nontrivial),
         "rule": "every field sequence of length <= %d over the %d-kind alphabet A_small and every ordered pair over the "
                 "%d-kind alphabet A_full%s, as struct and as union; bitfield-free sequences again under packed=True and "
-                "pack in {1,2,4,8}; structs again with trailing char[]/int[]/long long[]; non-trivial = contains a "
+                "pack in {1,2,4,8,16}; structs again with trailing char[]/int[]/long long[]/long double[]/void*[]/struct N[]; non-trivial = contains a "
                 "bitfield, an anonymous member, packing, a flexible tail or is a union (distinct descriptors counted)" % (
                     3 if ctx.quick else 4, len(A_SMALL), len(A_FULL),
                     "" if ctx.quick else " and every triple A_full x A_small x A_small in all three positions"),
